@@ -12,7 +12,9 @@
    14 = a status filter of defined bits / a named pin type / a pin mode does not survive its string form;
    21 = Raft log: a well-formed entry applied by the FSM loop (one shared LogOp decoded into for every entry) did not hand
         the tracker the submitted pin, or the state did not read back its stored form - whatever the earlier entries were
-        (tag 1: the pin carries origins). *)
+        (tag 1: the pin carries origins);
+   22 = a stream of records (snapshot of a pinset through State.Marshal / Unmarshal, state export / import) does not hand
+        every well-formed pin back as its own stored form. *)
 From V Require Import Base.Common Base.C08_Str Model.C08_Codec Model.C08_Query Model.C08_Status Base.C08_Schema Gen.C08Tags Model.C08_Fmap Model.C08_Equals Model.C08_Wire Model.C08_Reuse.
 Open Scope Z_scope.
 
@@ -156,7 +158,39 @@ Definition onto_eqb (a b : option (result pin)) : bool :=
   | _, _ => false
   end.
 
+(* ---- generic decode onto a used destination; streams of records ---- *)
+Definition model_onto (c : codec) (tn : string) (a b : val) : obs_v :=
+  match enc c api_schema (TStruct tn) b with
+  | Err => ObsVEncErr
+  | Ok w => match dec_onto c api_schema a (TStruct tn) w with Ok v => ObsV v | Err => ObsVDecErr end
+  end.
+
+(* state export / import: the stored form, written as JSON, read into a fresh api.Pin, stored again *)
+Definition import_cycle (p : pin) : obs_pin :=
+  match model_cycle p with
+  | ObsPin q =>
+      match enc Json api_schema (TStruct "Pin") (pin_to_val q) with
+      | Err => ObsEncErr
+      | Ok w => match dec Json api_schema (TStruct "Pin") w with
+                | Err => ObsDecErr
+                | Ok v => match val_to_pin v with Some q' => model_cycle q' | None => ObsDecErr end
+                end
+      end
+  | o => o
+  end.
+Definition stream_model (kind : N) (p : pin) : obs_pin := if (kind =? 0)%N then model_cycle p else import_cycle p.
+Definition stream_wf (kind : N) (p : pin) : bool :=
+  wf_pin p && ((kind =? 0)%N || (wf_val Json api_schema true (TStruct "Pin") false (pin_to_val (lossy_pb p))
+                                 && negb (has_iface api_schema (TStruct "Pin") (pin_to_val (lossy_pb p))))).
+Fixpoint spec_stream (kind : N) (ps : list pin) (obs : list obs_pin) : bool :=
+  match ps, obs with
+  | p :: pr, o :: or => (if stream_wf kind p then obs_pin_eqb o (ObsPin (lossy_pb p)) else true) && spec_stream kind pr or
+  | _, _ => true
+  end.
+
 Inductive payload :=
+  | COnto (c : codec) (tn : string) (a b : val) (o : obs_v)   (* b decoded on top of a destination that holds a *)
+  | CStream (kind : N) (ps : list pin) (obs : list obs_pin)   (* 0: State.Marshal / Unmarshal of a pinset; 1: exportState / importState; what each pin reads back as *)
   | CLogOp (es : list (Z * pin)) (obs : list step_res)   (* entries pushed through decode-into-the-shared-op + ApplyTo, what each did *)
   | CLogOnto (a b : pin) (o : option (result pin))        (* b decoded on top of a, no ApplyTo in between *)
   | CPb (p : pin) (o : obs_pin)
@@ -204,6 +238,10 @@ Definition spec_qraw (old : opts) (ob ob2 : obs_q) : bool :=
 Definition check_case (c : case) : list (N * N * N) :=
   let '(id, pl) := c in
   match pl with
+  | COnto c tn a b o => fail_if (negb (obs_v_eqb (model_onto c tn a b) o)) id 1 0
+  | CStream kind ps obs =>
+      fail_if (negb (pin_layout_ok && list_eqb obs_pin_eqb (map (stream_model kind) ps) obs)) id 1 0 ++
+      fail_if (negb (spec_stream kind ps obs)) id 22 0
   | CLogOp es obs =>
       fail_if (negb (logop_layout_ok && pin_layout_ok && list_eqb step_res_eqb (logop_apply_seq true logop_zero es) obs)) id 1 0 ++
       match spec_logop es obs with Some tg => [(id, 21%N, tg)] | None => [] end
